@@ -51,7 +51,7 @@ for P in ${PROPS//,/ }; do
 done
 mkdir -p "$DEST"; cp "$OUT/patch.diff" "$DEST/"; for d in "${DEMOS[@]}"; do cp "$OUT/$(basename $d)" "$DEST/"; done; cp "$OUT/run.txt" "$DEST/demo_run.txt" 2>/dev/null
 python3 - "$OUT/meta.json" "$DEST/meta.json" "$ID" "$K" "$D0" "$B" "$S" "$D1" "$RES" <<'PY'
-import json,sys
+import json,sys,os
 src,dst,ID,K,D0,B,S,D1,RES=sys.argv[1:10]
 try: m=json.load(open(src))
 except Exception: m={}
@@ -59,5 +59,6 @@ m['property']=ID
 m['verified_by_lead']={'demo_passes_on_HEAD':D0=='0','patch_builds':B=='0','existing_suite_passes_with_patch':S=='0','demo_fails_with_patch':D1!='0',
   'commands':'tools/seedcheck.sh %s %s (demo: go test -run Seed in the package of the demo file, on a clean worktree and with patch.diff applied; suite: go test ./sdf/... ./render/... ./vec/v3/...)'%(ID,K),
   'our_checks_quick':[l for l in RES.replace('\\n','\n').split('\n') if l.strip()]}
+if os.environ.get('INIT_MISSED')=='1': m['initially_missed_by_quick_tier']=True
 json.dump(m,open(dst,'w'),indent=1)
 PY
